@@ -26,6 +26,40 @@ def run(ctx):
     cases = glue.gen(ctx.rng, ctx.tier, [v for v in glue.VARIANTS if v != "serde"])
     ctx.run_suite("method-glue", cases, HEADER, model=False,
                   theorem="Properties/C09.v (C09_over_is_next_loop, C09_chunked, C09_with_history, C09_with_last_value, C09_peek_*)")
+    # ---- peek() = the output of the last next() for the peekable methods that are not scalar-in/scalar-out glue methods
+    # (VWMA incl. windows of zero total volume, Conv, TSI, windowed and cumulative ADI)
+    from ..suites import numeric
+    from ..suites.action import Simple
+    pcases = []
+    for c in numeric.gen_other(ctx.rng.fork("peek-other"), ctx.tier, ["VWMA", "Conv", "ADI", "TSI"]):
+        toks = c.line().split(" ")
+        if toks[0] != "method" or toks[1] not in ("VWMA", "Conv", "ADI", "TSI") or c.kind.startswith("ctor"):
+            continue
+        line = " ".join(toks[:2] + ["peek"] + toks[2:])
+
+        def orc(io, name=toks[1]):
+            if not io or io[0] != 0:
+                return None
+            outs = io[1:]
+            if outs and outs[-1] == core.T_PANIC:
+                return None
+            for t in range(len(outs) // 2):
+                o, pk = outs[2 * t], outs[2 * t + 1]
+                same = o == pk or (core.bits2f(o) != core.bits2f(o) and core.bits2f(pk) != core.bits2f(pk))
+                if not same:
+                    return ["%s: peek() after step %d returns %r, next() returned %r" % (name, t, core.bits2f(pk), core.bits2f(o))]
+            return []
+        pcases.append(Simple(line, None, "peek-" + c.kind, oracle=orc, extra={"entry": toks[1]}))
+    # VWMA on a stream whose first window already has zero total volume, and a trading halt
+    def vw(n, p0, ps):
+        return "method VWMA peek %d %016x %016x %d %s" % (n, core.f2bits(p0[0]), core.f2bits(p0[1]), len(ps),
+                                                          " ".join("%016x %016x" % (core.f2bits(a), core.f2bits(b)) for a, b in ps))
+    halt = [(100.0 + i, 5.0) for i in range(6)] + [(107.0 + i, 0.0) for i in range(8)] + [(120.0, 3.0), (121.0, 0.0)]
+    for n in (1, 2, 3, 5):
+        for p0, ps in (((100.0, 0.0), [(101.0, 0.0), (102.0, 0.0), (103.0, 2.0), (104.0, 0.0)] + halt), ((50.0, 7.0), halt)):
+            line = vw(n, p0, ps)
+            pcases.append(Simple(line, None, "peek-zero-volume", oracle=pcases[0].oracle if pcases else None, extra={"entry": "VWMA"}))
+    ctx.run_suite("method-peek-other", pcases, HEADER, model=False, theorem="Properties/C09.v (C09_peek_*)")
     # ---- indicators
     tabs = ind.tables() if _have_tables(ctx) else []
     icases = []
